@@ -396,13 +396,24 @@ func depthFor(limit uint64) int {
 	return d
 }
 
+// LimitError is the panic value when a value holds more elements than its type allows: such a
+// value is not an instance of the SSZ type and has no hash-tree-root.
+type LimitError struct {
+	Chunks int
+	Limit  uint64
+}
+
+func (e LimitError) Error() string {
+	return fmt.Sprintf("ssz: %d chunks over the limit of %d", e.Chunks, e.Limit)
+}
+
 // merkleize pads chunks with zero chunks to next_pow_of_two(limit) leaves and returns the root.
 func merkleize(chunks [][32]byte, limit uint64) [32]byte {
 	if limit == 0 {
 		limit = 1
 	}
 	if uint64(len(chunks)) > limit {
-		panic("merkleize: chunk count over limit")
+		panic(LimitError{Chunks: len(chunks), Limit: limit})
 	}
 	depth := depthFor(limit)
 	layer := chunks
